@@ -23,6 +23,27 @@ use std::sync::Arc;
 /// read as U+10000).  Code points U+20000..=U+2FFFF, U+40000..=U+4FFFF, ... written as \u escapes are
 /// therefore excluded from the generators while this flag is true.
 const KF_SURROGATE_BIT16: bool = true;
+/// KNOWN-FINDING candidate (arrow-avro/src/reader/mod.rs Decoder::decode): when a record body straddles two
+/// decode() calls the first attempt fails with EOF *after* it has already appended the values of the fields /
+/// array items decoded so far; the retry decodes the row again from its start, so those values are duplicated
+/// (wrong list contents, or column length mismatch errors at flush).  While true, single-object streams are
+/// fed to the decoder in pieces cut at row boundaries only.
+const KF_AVRO_STREAM_SPLIT: bool = true;
+/// KNOWN-FINDING candidate (arrow-avro reader): a record whose encoding is empty (every field of type null)
+/// is lost: the OCF reader returns no rows for a block "count n, 0 bytes", the stream decoder never decodes
+/// the last framed row.  While true, top-level records have at least one field with a non-empty encoding.
+const KF_AVRO_EMPTY_RECORD: bool = true;
+/// KNOWN-FINDING candidate (arrow-avro/src/codec.rs field_with_name): an Avro field / array item / map value
+/// of type "null" is mapped to a *non-nullable* Arrow field of type Null; inside a record, array or map the
+/// reader's own flush (StructArray / ListArray / MapArray::try_new) then fails with "Found unmasked nulls for
+/// non-nullable ... field".  While true, "null" only occurs as a top-level field or as a union branch.
+const KF_AVRO_NULL_NESTED: bool = true;
+/// KNOWN-FINDING candidate (arrow-avro/src/reader/record.rs UnionDecoder::flush): the per-branch `counts`
+/// used as dense offsets are not reset by flush, so every batch after the first has offsets beyond its child
+/// arrays and UnionArray::try_new fails ("Offsets must be non-negative and within the length of the Array"):
+/// a union column cannot be read past the first batch.  While true, schemas with a general union are read
+/// with a batch size that holds all rows.
+const KF_AVRO_UNION_BATCH: bool = true;
 
 // ------------------------------------------------------------------------------------------------ trees
 #[derive(Clone, Debug, PartialEq)]
@@ -43,6 +64,11 @@ enum V {
 }
 
 fn bi(x: i64) -> BigInt { BigInt::from(x) }
+/// error result; the message goes to stderr when C17_DEBUG is set (never into the case line)
+fn fail(kind: i64, what: &str, e: &dyn std::fmt::Display) -> Args {
+    if std::env::var_os("C17_DEBUG").is_some() { eprintln!("c17: {what}: {e}"); }
+    err(kind)
+}
 
 fn sc_code(sc: &Sc, out: &mut Group) {
     match sc {
@@ -447,12 +473,12 @@ fn avro_decode_rows(sc: &Sc, json: &str, rows: &[Vec<u8>]) -> Result<Vec<V>, i64
     let prefix = soe_prefix(&fp);
     for r in rows {
         let mut frame = prefix.clone(); frame.extend_from_slice(r);
-        let n = dec.decode(&frame).map_err(|_| E_INVALID)?;
-        if n != frame.len() { return Err(E_INVALID); }
+        let n = dec.decode(&frame).map_err(|e| { fail(E_INVALID, "row decode", &e); E_INVALID })?;
+        if n != frame.len() { fail(E_INVALID, "row consumed", &n); return Err(E_INVALID); }
     }
-    match dec.flush().map_err(|_| E_INVALID)? {
+    match dec.flush().map_err(|e| { fail(E_INVALID, "row flush", &e); E_INVALID })? {
         None => if rows.is_empty() { Ok(vec![]) } else { Err(E_INVALID) },
-        Some(b) => { if b.num_rows() != rows.len() { return Err(E_INVALID); } batch_rows(sc, &b).map_err(|_| E_UNSUPPORTED) }
+        Some(b) => { if b.num_rows() != rows.len() { return Err(E_INVALID); } batch_rows(sc, &b).map_err(|e| { fail(E_UNSUPPORTED, "row extract", &e); E_UNSUPPORTED }) }
     }
 }
 
@@ -510,7 +536,7 @@ fn run_avro(op: &str, a: &Args) -> Args {
         // [schema][fmt: 0 raw binary rows (Encoder), 1 single-object rows (Encoder), 2 single-object stream (Writer); slicing mode] rows -> datum bytes per row
         "c17.avro_write" => {
             let rows = rows_in(&sc, a);
-            let ctx = match avro_ctx(&sc, true) { Ok(c) => c, Err(_) => return skip() };
+            let ctx = match avro_ctx(&sc, true) { Ok(c) => c, Err(e) => { fail(0, "ctx", &e); return skip() } };
             let batches = sliced_batches(&sc, &ctx.arrow, &rows, o[1] as usize);
             let mut out: Args = Vec::new();
             let strip = |row: &[u8], out: &mut Args| -> bool {
@@ -522,13 +548,13 @@ fn run_avro(op: &str, a: &Args) -> Args {
                 0 | 1 => {
                     let b = AvroWriterBuilder::new((*ctx.arrow).clone());
                     let mut enc = match if o[0] == 0 { b.build_encoder::<AvroBinaryFormat>() } else { b.build_encoder::<AvroSoeFormat>() } { Ok(e) => e, Err(_) => return err(E_UNSUPPORTED) };
-                    for b in &batches { if enc.encode(b).is_err() { return err(E_INVALID); } }
+                    for b in &batches { if let Err(e) = enc.encode(b) { return fail(E_INVALID, "encoder", &e); } }
                     for row in enc.flush().iter() { if o[0] == 0 { out.push(gbytes(&row)) } else if !strip(&row, &mut out) { return err(E_IO) } }
                 }
                 _ => {
                     // the stream writer has no row boundaries: rows are cut with the harness' own encoder lengths
                     let mut w = match AvroWriterBuilder::new((*ctx.arrow).clone()).build::<_, AvroSoeFormat>(Vec::new()) { Ok(w) => w, Err(_) => return err(E_UNSUPPORTED) };
-                    for b in &batches { if w.write(b).is_err() { return err(E_INVALID); } }
+                    for b in &batches { if let Err(e) = w.write(b) { return fail(E_INVALID, "stream write", &e); } }
                     if w.finish().is_err() { return err(E_IO); }
                     let bytes = w.into_inner(); let mut pos = 0;
                     for r in &rows {
@@ -562,19 +588,19 @@ fn run_avro(op: &str, a: &Args) -> Args {
         "c17.avro_rt" => {
             let rows = rows_in(&sc, a);
             let explicit = o[3] != 0;
-            let ctx = match avro_ctx(&sc, explicit) { Ok(c) => c, Err(_) => return skip() };
+            let ctx = match avro_ctx(&sc, explicit) { Ok(c) => c, Err(e) => { fail(0, "ctx", &e); return skip() } };
             let batches = sliced_batches(&sc, &ctx.arrow, &rows, o[2] as usize);
             let mut got: Vec<V> = Vec::new();
             if o[0] == 0 {
                 let mut w = match AvroWriterBuilder::new((*ctx.arrow).clone()).with_compression(codec_of(o[1] as usize)).build::<_, AvroOcfFormat>(Vec::new()) { Ok(w) => w, Err(_) => return err(E_UNSUPPORTED) };
-                for b in &batches { if w.write(b).is_err() { return err(E_INVALID); } }
+                for b in &batches { if let Err(e) = w.write(b) { return fail(E_INVALID, "ocf write", &e); } }
                 if w.finish().is_err() { return err(E_IO); }
                 let bytes = w.into_inner();
-                let rd = match AvroReaderBuilder::new().with_batch_size(o[4].max(1) as usize).build(Cursor::new(bytes)) { Ok(r) => r, Err(_) => return err(E_INVALID) };
-                for b in rd { match b { Ok(b) => match batch_rows(&sc, &b) { Ok(vs) => got.extend(vs), Err(_) => return err(E_UNSUPPORTED) }, Err(_) => return err(E_INVALID) } }
+                let rd = match AvroReaderBuilder::new().with_batch_size(o[4].max(1) as usize).build(Cursor::new(bytes)) { Ok(r) => r, Err(e) => return fail(E_INVALID, "ocf open", &e) };
+                for b in rd { match b { Ok(b) => match batch_rows(&sc, &b) { Ok(vs) => got.extend(vs), Err(e) => return fail(E_UNSUPPORTED, "ocf extract", &e) }, Err(e) => return fail(E_INVALID, "ocf read", &e) } }
             } else {
                 let mut w = match AvroWriterBuilder::new((*ctx.arrow).clone()).build::<_, AvroSoeFormat>(Vec::new()) { Ok(w) => w, Err(_) => return err(E_UNSUPPORTED) };
-                for b in &batches { if w.write(b).is_err() { return err(E_INVALID); } }
+                for b in &batches { if let Err(e) = w.write(b) { return fail(E_INVALID, "soe write", &e); } }
                 if w.finish().is_err() { return err(E_IO); }
                 let bytes = w.into_inner();
                 let mut store = SchemaStore::new();
@@ -582,20 +608,27 @@ fn run_avro(op: &str, a: &Args) -> Args {
                 if store.register(ws).is_err() { return err(E_UNSUPPORTED); }
                 let mut dec = match AvroReaderBuilder::new().with_writer_schema_store(store).with_batch_size(o[4].max(1) as usize).build_decoder() { Ok(d) => d, Err(_) => return err(E_UNSUPPORTED) };
                 let mut pos = 0;
-                // fed in two pieces, cut in the middle of the stream, flushing whenever a batch fills
-                let cut = bytes.len() / 2; let mut carry: Vec<u8> = Vec::new();
+                // fed in two pieces, flushing whenever a batch fills
+                let mut cut = bytes.len() / 2;
+                if KF_AVRO_STREAM_SPLIT { // move the cut back to a row boundary
+                    let mut at = 0; let mut best = 0;
+                    for r in &rows { if at <= cut { best = at } let mut e = Vec::new(); avro_enc(&sc, r, 0, false, &mut e); at += 10 + e.len(); }
+                    if at <= cut { best = at }
+                    cut = best.min(bytes.len());
+                }
+                let mut carry: Vec<u8> = Vec::new();
                 for piece in [&bytes[..cut], &bytes[cut..]] {
                     carry.extend_from_slice(piece); let mut off = 0;
                     loop {
-                        let n = match dec.decode(&carry[off..]) { Ok(n) => n, Err(_) => return err(E_INVALID) };
+                        let n = match dec.decode(&carry[off..]) { Ok(n) => n, Err(e) => return fail(E_INVALID, "soe decode", &e) };
                         off += n; pos += n;
-                        if dec.batch_is_full() { match dec.flush() { Ok(Some(b)) => match batch_rows(&sc, &b) { Ok(vs) => got.extend(vs), Err(_) => return err(E_UNSUPPORTED) }, Ok(None) => {}, Err(_) => return err(E_INVALID) } }
+                        if dec.batch_is_full() { match dec.flush() { Ok(Some(b)) => match batch_rows(&sc, &b) { Ok(vs) => got.extend(vs), Err(e) => return fail(E_UNSUPPORTED, "soe extract", &e) }, Ok(None) => {}, Err(e) => return fail(E_INVALID, "soe flush", &e) } }
                         else if n == 0 || off >= carry.len() { break }
                     }
                     carry.drain(..off);
                 }
-                match dec.flush() { Ok(Some(b)) => match batch_rows(&sc, &b) { Ok(vs) => got.extend(vs), Err(_) => return err(E_UNSUPPORTED) }, Ok(None) => {}, Err(_) => return err(E_INVALID) }
-                if pos != bytes.len() { return err(E_EOF); }
+                match dec.flush() { Ok(Some(b)) => match batch_rows(&sc, &b) { Ok(vs) => got.extend(vs), Err(e) => return fail(E_UNSUPPORTED, "soe extract", &e) }, Ok(None) => {}, Err(e) => return fail(E_INVALID, "soe flush", &e) }
+                if pos != bytes.len() { return fail(E_EOF, "soe leftover", &(bytes.len() - pos)); }
             }
             rows_out(&sc, &got)
         }
@@ -822,7 +855,7 @@ fn run_csv(op: &str, a: &Args) -> Args {
             let rd = match b.build(Cursor::new(text)) { Ok(r) => r, Err(_) => return err(E_INVALID) };
             let mut out: Args = Vec::new();
             for x in rd {
-                let x = match x { Ok(x) => x, Err(_) => return err(E_INVALID) };
+                let x = match x { Ok(x) => x, Err(e) => return fail(E_INVALID, "csv split", &e) };
                 for i in 0..x.num_rows() {
                     // with the default null regex a null is exactly the empty field
                     let fields: Vec<Vec<u8>> = (0..ncols).map(|c| { let col = x.column(c).as_string::<i32>(); if col.is_null(i) { vec![] } else { col.value(i).as_bytes().to_vec() } }).collect();
@@ -851,8 +884,9 @@ fn run_csv(op: &str, a: &Args) -> Args {
                     _ => {}
                 }
                 let mut w = wb.build(&mut out);
-                for b in &batches { if w.write(b).is_err() { return err(E_INVALID); } }
+                for b in &batches { if let Err(e) = w.write(b) { return fail(E_INVALID, "csv write", &e); } }
             }
+            if std::env::var_os("C17_DEBUG").is_some() { eprintln!("c17: csv text {:?}", String::from_utf8_lossy(&out)); }
             let mut rb = arrow_csv::ReaderBuilder::new(schema).with_header(o[4] != 0).with_delimiter(o[0] as u8).with_quote(o[1] as u8).with_batch_size((o[9] as usize).max(1));
             if o[3] == 0 { rb = rb.with_escape(o[2] as u8) }
             if let Some(s) = sentinel {
@@ -861,7 +895,7 @@ fn run_csv(op: &str, a: &Args) -> Args {
             }
             let rd = match rb.build(Cursor::new(out)) { Ok(r) => r, Err(_) => return err(E_INVALID) };
             let mut got = Vec::new();
-            for x in rd { match x { Ok(x) => match batch_rows(&sc, &x) { Ok(vs) => got.extend(vs), Err(_) => return err(E_UNSUPPORTED) }, Err(_) => return err(E_INVALID) } }
+            for x in rd { match x { Ok(x) => match batch_rows(&sc, &x) { Ok(vs) => got.extend(vs), Err(e) => return fail(E_UNSUPPORTED, "csv extract", &e) }, Err(e) => return fail(E_INVALID, "csv read", &e) } }
             rows_out(&sc, &got)
         }
         _ => unreachable!(),
@@ -869,6 +903,13 @@ fn run_csv(op: &str, a: &Args) -> Args {
 }
 
 pub fn run(op: &str, a: &Args) -> Option<Args> {
+    if std::env::var_os("C17_DEBUG").is_some() && std::env::var_os("C17_NOCATCH").is_none() {
+        // debugging aid: show the panic message of the implementation
+        unsafe { std::env::set_var("C17_NOCATCH", "1"); }
+        let r = std::panic::catch_unwind(std::panic::AssertUnwindSafe(|| run(op, a)));
+        unsafe { std::env::remove_var("C17_NOCATCH"); }
+        return match r { Ok(x) => x, Err(p) => { let m = p.downcast_ref::<String>().cloned().or_else(|| p.downcast_ref::<&str>().map(|s| s.to_string())).unwrap_or_default(); eprintln!("c17: panic: {m}"); Some(err(E_PANIC)) } };
+    }
     Some(match op {
         "c17.avro_write" | "c17.avro_read" | "c17.avro_blocked" | "c17.avro_rt" => run_avro(op, a),
         "c17.json_rt" | "c17.json_doc" | "c17.json_escape" | "c17.json_unescape" => run_json(op, a),
@@ -961,9 +1002,29 @@ fn gen_sc(r: &mut Rng, fmt: Fmt, depth: usize) -> Sc {
     let nullable_ok = !matches!(base, Sc::Null | Sc::Union(_));
     if nullable_ok && r.chance(2, 5) { Sc::Nullable(matches!(fmt, Fmt::Avro | Fmt::AvroMut) && r.chance(1, 3), Box::new(base)) } else { base }
 }
+fn zero_width(sc: &Sc) -> bool { match sc { Sc::Null => true, Sc::Rec(fs) => fs.iter().all(zero_width), _ => false } }
 fn gen_top(r: &mut Rng, fmt: Fmt, depth: usize) -> Sc {
+    loop {
+        let sc = gen_top1(r, fmt, depth);
+        if KF_AVRO_EMPTY_RECORD && zero_width(&sc) { continue }
+        return sc;
+    }
+}
+/// replaces "null" below the top level (except union branches) by boolean
+fn strip_nested_null(sc: Sc, top: bool, in_union: bool) -> Sc {
+    match sc {
+        Sc::Null => if top || in_union { Sc::Null } else { Sc::Bool },
+        Sc::Arr(t) => Sc::Arr(Box::new(strip_nested_null(*t, false, false))),
+        Sc::Map(t) => Sc::Map(Box::new(strip_nested_null(*t, false, false))),
+        Sc::Nullable(ns, t) => Sc::Nullable(ns, Box::new(strip_nested_null(*t, top, false))),
+        Sc::Union(bs) => Sc::Union(bs.into_iter().map(|b| strip_nested_null(b, false, true)).collect()),
+        Sc::Rec(fs) => Sc::Rec(fs.into_iter().map(|f| strip_nested_null(f, false, false)).collect()),
+        o => o,
+    }
+}
+fn gen_top1(r: &mut Rng, fmt: Fmt, depth: usize) -> Sc {
     let n = match fmt { Fmt::Csv => 1 + r.below(6), _ => 1 + r.below(4) };
-    Sc::Rec((0..n).map(|_| gen_sc(r, fmt, depth)).collect())
+    Sc::Rec((0..n).map(|_| { let f = gen_sc(r, fmt, depth); if KF_AVRO_NULL_NESTED { strip_nested_null(f, true, false) } else { f } }).collect())
 }
 
 const CHARS: &[&str] = &["a", "b", "Z", "0", "9", " ", ",", ";", "|", "\t", "\"", "'", "\\", "\r", "\n", "\r\n", "/", "#", ":", "{", "}", "[", "]",
@@ -1025,7 +1086,7 @@ fn gen_v(r: &mut Rng, sc: &Sc, fmt: Fmt, key_ok: &dyn Fn(&[u8]) -> bool) -> V {
                     let k = 1 + r.below(16 * 8); let b = BigInt::from(1) << (k - 1); match r.below(4) { 0 => b, 1 => b - 1, 2 => -b, _ => -b - 1 } }
                 _ => { let bits = 1 + r.below(255); let mut x = BigInt::zero(); for _ in 0..(bits + 63) / 64 { x = (x << 64) + BigInt::from(r.next()) } x = x % (BigInt::from(1) << bits); if r.bool() { -x } else { x } }
             };
-            if x > lim { x = x % (&lim + 1) } if x < -lim.clone() { x = -((-x) % (&lim + 1)) }
+            let modulus: BigInt = &lim + 1; if x > lim { x = &x % &modulus } if x < -lim.clone() { let y: BigInt = (-x) % &modulus; x = -y }
             V::Dec(x)
         }
         Sc::Arr(t) => { let n = len(r); V::Arr((0..n).map(|_| gen_v(r, t, fmt, key_ok)).collect()) }
@@ -1180,7 +1241,9 @@ fn csv_raw_field(r: &mut Rng, d: u8, q: u8, esc: Option<u8>, term: Option<u8>) -
             for b in inner { if b == q { if esc.is_some() && r.bool() { f.push(esc.unwrap()); f.push(q) } else { f.push(q); f.push(q) } } else if Some(b) == esc { f.push(b); f.push(b) } else { f.push(b) } }
             f.push(q); f
         }
-        7 => { let mut f = plain; if !f.is_empty() { let at = 1 + r.below(f.len()); f.insert(at.min(f.len()), q) } f }       // quote inside an unquoted field
+        7 => { let mut f = plain; if !f.is_empty() {                                                                            // quote inside an unquoted field
+                   let bounds: Vec<usize> = (1..=f.len()).filter(|&i| i == f.len() || f[i] & 0xC0 != 0x80).collect();
+                   let at = *r.pick(&bounds); f.insert(at, q) } f }
         8 => { let mut f = vec![q]; f.extend(plain.iter()); f.push(q); f.extend_from_slice(b"xy"); f }                          // text after the closing quote
         _ => { let mut f = vec![q, q]; if r.bool() { f.extend_from_slice(&[q, q]) } f }                                         // "" and """"
     }
@@ -1192,20 +1255,21 @@ pub fn generate(tier: &str, r: &mut Rng, emit: &mut dyn FnMut(Case)) {
 
     // ---------------------------------------------------------------- Avro: writer -> reader
     for i in 0..1200 * scale {
-        let sc = gen_top(r, Fmt::Avro, 1 + r.below(3));
+        let depth = 1 + r.below(3); let sc = gen_top(r, Fmt::Avro, depth);
         let n = n_rows(r, tier);
         let rows: Vec<V> = (0..n).map(|_| gen_v(r, &sc, Fmt::Avro, &any)).collect();
         let container = (i % 4 == 3) as i64;
         let codec = if container == 0 { (i % 6) as i64 } else { 0 };
         let slicing = r.below(3) as i64;
         let explicit = if container == 0 { 0 } else { r.chance(3, 4) as i64 };
-        let batch = *r.pick(&[1i64, 2, 3, 8, 1024]);
+        let mut batch = *r.pick(&[1i64, 2, 3, 8, 1024]);
+        if KF_AVRO_UNION_BATCH && contains_kind(&sc, &|s| matches!(s, Sc::Union(_))) { batch = 1024 }
         let tag = format!("avro_rt:{}:c{codec}:s{slicing}:e{explicit}:{}", if container == 0 { "ocf" } else { "soe" }, heads(&sc));
         emit(Case::new("c17.avro_rt", case_rows(&sc, gs(&[container, codec, slicing, explicit, batch]), &rows), &["c17.avro_rt.spec"], tag));
     }
     // ---------------------------------------------------------------- Avro: writer bytes = model encoder
     for i in 0..500 * scale {
-        let sc = gen_top(r, Fmt::Avro, 1 + r.below(3));
+        let depth = 1 + r.below(3); let sc = gen_top(r, Fmt::Avro, depth);
         let n = n_rows(r, "quick").min(9);
         let rows: Vec<V> = (0..n).map(|_| gen_v(r, &sc, Fmt::Avro, &any)).collect();
         let fmt = (i % 3) as i64; let slicing = r.below(3) as i64;
@@ -1213,7 +1277,7 @@ pub fn generate(tier: &str, r: &mut Rng, emit: &mut dyn FnMut(Case)) {
     }
     // ---------------------------------------------------------------- Avro: block forms read by the real reader and by the model
     for _ in 0..500 * scale {
-        let sc = gen_top(r, Fmt::Avro, 1 + r.below(3));
+        let depth = 1 + r.below(3); let sc = gen_top(r, Fmt::Avro, depth);
         let n = n_rows(r, "quick").min(9);
         let rows: Vec<V> = (0..n).map(|_| gen_v(r, &sc, Fmt::Avro, &any)).collect();
         let bk = *r.pick(&[0i64, 1, 1, 2, 3, 7]); let sized = r.bool() as i64;
@@ -1221,7 +1285,7 @@ pub fn generate(tier: &str, r: &mut Rng, emit: &mut dyn FnMut(Case)) {
     }
     // ---------------------------------------------------------------- Avro: damaged / unusual encodings, accept-reject and values
     for _ in 0..1500 * scale {
-        let sc = gen_top(r, Fmt::AvroMut, 1 + r.below(2));
+        let depth = 1 + r.below(2); let sc = gen_top(r, Fmt::AvroMut, depth);
         let n = 1 + r.below(3);
         let mut rows: Vec<Vec<u8>> = (0..n).map(|_| { let v = gen_v(r, &sc, Fmt::AvroMut, &any); let mut e = Vec::new(); avro_enc(&sc, &v, *r.pick(&[0usize, 1, 2]), r.bool(), &mut e); e }).collect();
         let k = r.below(rows.len());
@@ -1254,7 +1318,7 @@ pub fn generate(tier: &str, r: &mut Rng, emit: &mut dyn FnMut(Case)) {
 
     // ---------------------------------------------------------------- JSON: writer -> reader
     for i in 0..1300 * scale {
-        let sc = gen_top(r, Fmt::Json, 1 + r.below(3));
+        let depth = 1 + r.below(3); let sc = gen_top(r, Fmt::Json, depth);
         let n = n_rows(r, tier);
         let array = (i % 3 == 2) as i64; let list_mode = (i % 5 == 4) as i64;
         let mut explicit = r.bool() as i64;
@@ -1267,7 +1331,7 @@ pub fn generate(tier: &str, r: &mut Rng, emit: &mut dyn FnMut(Case)) {
     }
     // ---------------------------------------------------------------- JSON: RFC 8259 documents, arrow-json vs serde_json
     for _ in 0..1300 * scale {
-        let sc = gen_top(r, Fmt::Doc, 1 + r.below(3));
+        let depth = 1 + r.below(3); let sc = gen_top(r, Fmt::Doc, depth);
         let n = 1 + r.below(4);
         let mut text = Vec::new();
         for _ in 0..n { let v = gen_v(r, &sc, Fmt::Doc, &any); ws(r, &mut text); render_doc(r, &sc, &v, &mut text); text.extend_from_slice(r.pick(&["\n", "\n", " ", "\r\n", "\n\n", ""]).as_bytes()) }
@@ -1302,7 +1366,10 @@ pub fn generate(tier: &str, r: &mut Rng, emit: &mut dyn FnMut(Case)) {
                         if !(KF_SURROGATE_BIT16 && ((c - 0x10000) >> 16) & 1 == 1) { break c } };
                     let v = c - 0x10000; let s = format!("\\u{:04X}\\u{:04x}", 0xD800 + (v >> 10), 0xDC00 + (v & 0x3FF)); body.extend_from_slice(s.as_bytes()); kinds.insert("u-pair");
                 }
-                8 => { let hi = 0xD800 + r.below(0x400) as u32; let s = match r.below(4) { 0 => format!("\\u{hi:04X}"), 1 => format!("\\u{hi:04X}x"), 2 => format!("\\u{hi:04X}\\n"), _ => format!("\\u{hi:04X}\\u{:04X}", r.below(0x10000)) }; body.extend_from_slice(s.as_bytes()); kinds.insert("lone-high"); }
+                8 => { let hi = 0xD800 + r.below(0x400) as u32;
+                    // KNOWN-FINDING candidate: when the second escape happens to be a low surrogate the pair is valid; bit-16 class excluded
+                    let second = loop { let x = r.below(0x10000) as u32; if !(KF_SURROGATE_BIT16 && (0xDC00..0xE000).contains(&x) && (hi - 0xD800) & 0x40 != 0) { break x } };
+                    let s = match r.below(4) { 0 => format!("\\u{hi:04X}"), 1 => format!("\\u{hi:04X}x"), 2 => format!("\\u{hi:04X}\\n"), _ => format!("\\u{hi:04X}\\u{second:04X}") }; body.extend_from_slice(s.as_bytes()); kinds.insert("lone-high"); }
                 9 => { let lo = 0xDC00 + r.below(0x400) as u32; let s = if r.bool() { format!("\\u{lo:04X}") } else { format!("\\u{lo:04X}\\u{:04X}", 0xD800 + r.below(0x400)) }; body.extend_from_slice(s.as_bytes()); kinds.insert("lone-low"); }
                 10 => { body.push(b'\\'); body.push(*r.pick(b"uxa0U'\n ")); kinds.insert("bad-escape"); }
                 11 => { let s = match r.below(4) { 0 => "\\u12", 1 => "\\u12G4", 2 => "\\u 123", _ => "\\u+123" }; body.extend_from_slice(s.as_bytes()); kinds.insert("bad-hex"); }
@@ -1323,7 +1390,9 @@ pub fn generate(tier: &str, r: &mut Rng, emit: &mut dyn FnMut(Case)) {
         let sc = gen_top(r, Fmt::Csv, 0);
         let n = n_rows(r, tier);
         let delim = *r.pick(&[b',', b',', b';', b'\t', b'|']); let quote = *r.pick(&[b'"', b'"', b'\'']);
-        let double = !r.chance(1, 4); let header = r.bool(); let null_mode = (i % 4) as i64; let crlf = r.chance(1, 3);
+        let double = !r.chance(1, 4); let header = r.bool(); let crlf = r.chance(1, 3);
+        // with escape-style quoting a sentinel containing the escape byte is as ambiguous as such a value
+        let null_mode = if !double && i % 4 == 2 { 1 } else { (i % 4) as i64 };
         let sentinel: &[u8] = match null_mode { 1 => b"NULL", 2 => b"\\N", 3 => b"n/a", _ => b"" };
         // the text is unambiguous: the null sentinel differs from every value, and (csv-core writes the escape
         // character of a quoted field unescaped) no value contains the escape character when quotes are escaped
